@@ -795,6 +795,11 @@ class Engine:
             from . import mutstate
 
             ns.__dict__["old"] = mutstate.snapshot(self_obj)  # pre-state of a mutable receiver
+        for pname, pval in list(args.items()):
+            if isinstance(pval, Obj) and pval.fields is not None and pval is not self_obj:
+                from . import mutstate
+
+                ns.__dict__["old_" + pname] = mutstate.snapshot(pval)  # pre-state of a materialised (mutable) argument
         if self_obj is not None and not is_init:
             for label, inv in self.class_invariants(ctx, self_obj):
                 ctx.assume(lift_bool(inv))
